@@ -609,6 +609,10 @@ class C19(core.Check):
             run.run()
         except Violation as v:
             out.violate(v.clause, v.detail, run.opi)
+        except (HarnessError, MemoryError):
+            raise
+        except Exception as e:
+            out.violate('C19.1', hist.unexpected(e, (case['ops'][run.opi:run.opi + 1] or [None])[0]), run.opi)
         out.steps = len(case['ops'])
         out.digest = digest_of(run.trace)
         multi = False
